@@ -1,0 +1,29 @@
+//go:build verif
+
+package fzf
+
+import "github.com/junegunn/fzf/src/util"
+
+// Verification hooks (build tag verif) for field index expressions in command
+// templates: thin exported wrapper around replacePlaceholder that accepts any
+// Delimiter (AWK-style, plain string or regular expression). No logic.
+
+// VerifExpandFields expands template for the current item `line` (ordinal index),
+// no selection, empty query, default shell.
+func VerifExpandFields(template string, delimiter Delimiter, line string, index int32) string {
+	item := &Item{text: util.ToChars([]byte(line))}
+	item.text.Index = index
+	out, _ := replacePlaceholder(replacePlaceholderParams{
+		template:   template,
+		stripAnsi:  false,
+		delimiter:  delimiter,
+		printsep:   "\n",
+		forcePlus:  false,
+		query:      "",
+		allItems:   []*Item{item, nil},
+		lastAction: actBackwardDeleteCharEof,
+		prompt:     "",
+		executor:   util.NewExecutor(""),
+	})
+	return out
+}
